@@ -91,9 +91,9 @@ Section P.
     if m_skip rt || has_dyn MSkip i dyn || memN i desel then mkPres OSkip w [] []
     else if existsb (fun b => b) (m_skipif rt) then mkPres OSkip w [] []
     else if has_dyn MAncFailed i dyn then mkPres OSkipPrevFailed w [] []
+    else if has_dyn MWould i dyn then mkPres OWould w [] []
     else if negb (is_gen t) && m_persist rt && all_exist Ec w rt && any_changed Ec w rt
          then mkPres OPersist (if dry_run c then w else record_states (edges_record E w w t) w rt) [] []
-    else if has_dyn MWould i dyn then mkPres OWould w [] []
     else
       let verdict :=
         if force c || is_gen t then inr true
